@@ -219,6 +219,36 @@ theorem xls_not_a_compound_file (arms : Arms) (file : Bytes) (e : String)
     (h : Cfb.new file file.length = .err e) : xlsOpen arms file = .err ("cfb:" ++ e) := by
   unfold xlsOpen; rw [h]
 
+/-- the options of `Xls::new_with_options` do not change the verdict: with any code page the reader knows (forced or
+    not) and any header row, the outcome is that of `Xls::new` — in particular `Password` for every workbook the
+    theorems above cover — and a forced code page the reader does not know is rejected before the records are looked
+    at, the same for encrypted and plain workbooks (so never `Password`) -/
+theorem xls_options_irrelevant (arms : Arms) (file : Bytes) : xlsOpenWith true arms file = xlsOpen arms file := by
+  unfold xlsOpenWith xlsOpen
+  cases Cfb.new file file.length with
+  | ok p =>
+    obtain ⟨c, rd⟩ := p
+    simp only []
+    split
+    · rfl
+    · cases workbookStream c rd <;> simp
+  | err e => rfl
+  | panic e => rfl
+  | outOfFuel => rfl
+
+theorem xls_unknown_codepage_never_password (arms : Arms) (file : Bytes) : xlsOpenWith false arms file ≠ .password := by
+  unfold xlsOpenWith
+  cases Cfb.new file file.length with
+  | ok p =>
+    obtain ⟨c, rd⟩ := p
+    simp only []
+    split
+    · intro h; cases h
+    · cases workbookStream c rd <;> simp
+  | err e => intro h; cases h
+  | panic e => intro h; cases h
+  | outOfFuel => intro h; cases h
+
 /-! ## ods -/
 
 /-- A `manifest:file-entry` start tag followed — after any events: attributes' worth of nothing, other children,
